@@ -30,9 +30,13 @@ RULE = ('cells = every combination of (transfer syntax, dtype, bits allocated, s
         'accepted frame with at least two different values, distinct by (syntax, dtype, bits, stored, samples, pi, '
         'rows*cols mod 8, layout)')
 ASSUMPTIONS = [
-    'content of a frame fits its bits_stored (values above are outside the property: a decoder may mask them)',
-    'array.ndim == 2 for one sample per pixel (an (r, c, 1) array decodes to (r, c); shape not compared for it)',
-    'JPEG 2000 lossless: no encoder is installed in this environment; cells are observed as codec refusals',
+    'no precondition on the content: whatever is accepted must decode to the same values, also samples outside bits_stored',
+    'round trips compare shape and values; the returned dtype is pydicom\'s (bool -> uint8), an (r, c, 1) array decodes '
+    'to (r, c) and is compared by values; frame index 0 only (offsets inside multi-frame data: C05)',
+    'codec law: the lossless law is demanded of the real codecs on the region codecRegion of the model (JPEG-LS Lossless; '
+    'RLE Lossless with bits_stored > bits_allocated - 8); RLE outside it is the open finding C07-rle-narrow-stored',
+    'JPEG 2000 lossless: no encoder is installed in this environment; cells are observed as codec refusals (not in the region)',
+    'cells of 8, 16, 32 bits: 64-bit integer arrays are outside the model (DType has no 64-bit member) and are not drawn',
 ]
 MODELLED_NOT_VERIFIED = ['pydicom RLE encoder/decoder', 'pyjpegls (JPEG-LS) codec', 'pydicom pack_bits / unpack_bits',
                          'pydicom native pixel data decoder (length check, unused-bit correction, YBR->RGB)',
@@ -335,6 +339,12 @@ def _check(ctx, kind, ts, dtype, ba, bs, samples, pi, pr, pc, a, reqs, pending, 
     # ---- model: translated decision tree on the same request (L0: accepted vs refused by highdicom's own checks)
     reqs.append(('encodeRouteRaw', _model_args(ts, ba, bs, pi, pr, pc, a)))
     pending.append((case, 'route', st))
+    # ---- model: the refusal of `pack_bits` itself (1-bit native, content other than 0 / 1)
+    if st == 'codec' and ts in NATIVE and ba == 1 and a.dtype.kind in 'biu' and a.ndim in (2, 3) and a.size <= 2000:
+        reqs.append(('encodeFrame', {'ts': ts, 'ba': ba, 'bs': bs, 'pi': pi, 'pr': pr, 'planar': pc, 'rows': rows, 'cols': cols,
+                                     'samples': (a.shape[2] if a.ndim > 2 else None), 'dtype': a.dtype.name,
+                                     'data': np.asarray(a).astype(np.int64).reshape(-1).tolist()}))
+        pending.append((case, 'bytes-refused', val))
     # ---- oracle
     if must_accept and st != 'ok':
         ctx.fail(case, f'valid request refused: {val}', site='must-accept')
@@ -361,7 +371,13 @@ def _check(ctx, kind, ts, dtype, ba, bs, samples, pi, pr, pc, a, reqs, pending, 
                                 'got': np.asarray(pyd).reshape(-1)[:24].tolist(),
                                 'want': np.asarray(a).astype(np.int64).reshape(-1)[:24].tolist()}, site='one-frame')
             if ts in (RLE, JLS):
-                ctx.hist('codec_law', (TSNAME[ts], 'exercised'))
+                # the law LosslessOn codecRegion of the model, exercised on the real codec: inside the region a failure is
+                # a plain violation (never attributed), outside it (RLE, a whole unused byte) it is the open finding
+                in_region = ts == JLS or bs > ba - 8
+                held = st2 == 'ok' and (_same(dec, a) or (shape_free and _same_values(dec, a))) or \
+                    (pi in ('YBR_FULL', 'YBR_FULL_422') and st3 == 'ok' and _same_values(pyd, a))
+                ctx.hist('codec_law', (TSNAME[ts], 'in codecRegion' if in_region else 'outside codecRegion',
+                                       'held' if held else 'BROKEN'))
             # ---- model L1: native bytes and decode values
             if ts in NATIVE and a.dtype.kind in 'biu' and a.size <= 2000:
                 fa = {'ts': ts, 'ba': ba, 'bs': bs, 'pi': pi, 'pr': pr, 'planar': pc, 'rows': rows, 'cols': cols,
@@ -447,6 +463,14 @@ def _cells(ctx, reqs, pending):
             shp = (16, 16) if ts == JLS else (4, 6)
             a = _mk_array(ctx.np_rng('side-unaligned', side), dt, shp, ba, bs, pr)
             _check(ctx, 'side-unaligned', ts, dt, ba, bs, None, 'MONOCHROME2', pr, None, a, reqs, pending)
+            side += 1
+    # 1 bit allocated with content other than 0 / 1 (pack_bits' own refusal; the 1-bit JPEG 2000 route's check): refused
+    for ts, shp in ((EXPLICIT, (4, 6)), (IMPLICIT, (4, 6)), (J2KL, (32, 32))):
+        for dt, bad in (('uint8', 2), ('uint8', 255), ('int8', -1), ('int16', -1), ('uint16', 2), ('float32', 0.5), ('float32', -1.0)):
+            a = np.zeros(shp, dtype=dt)
+            a[1, 2] = 1
+            a[shp[0] - 1, shp[1] - 1] = bad
+            _check(ctx, 'side-onebit-content', ts, dt, 1, 1, None, 'MONOCHROME2', 0, None, a, reqs, pending)
             side += 1
     # masks held in bool cells with 8 / k and 16 / k bits (allocated / stored): refused, or exact round trip
     for ts in (IMPLICIT, EXPLICIT, RLE, JLS):
@@ -534,6 +558,54 @@ def _uids(ctx, reqs, pending):
         pending.append(({'kind': 'uid', 'ts': ts}, 'uid', bool(UID(ts).is_encapsulated)))
 
 
+def _rank_and_shape_cells(ctx, reqs, pending):
+    """arrays that are no frame: rank other than 2 / 3, and 0 or more than 65535 rows / columns (Rows / Columns have VR US and
+    may not be 0).  Oracle: refused -- or, for the shapes at the edge that ARE frames (65535), exact round trip."""
+    k = 0
+    for ts in (EXPLICIT, IMPLICIT, RLE, JLS):
+        for dt, ba in (('uint8', 8), ('bool', 1), ('uint16', 16)):
+            if ts == JLS and ba == 1:
+                continue
+            cells = [((24,), None), ((2, 3, 3, 2), 0), ((1, 2, 3, 3, 1), 0), ((), None), ((2, 4, 3, 1), 0),
+                     ((0, 8), None), ((8, 0), None), ((0, 0), None), ((65536, 1), None), ((1, 65536), None), ((70000, 8), None),
+                     ((65535, 8), None), ((8, 65535), None)]
+            if ctx.tier != 'thorough':
+                cells = cells[:3] + cells[5:6] + cells[8:9] + cells[11:12]
+            for shape, pc in cells:
+                nr = ctx.np_rng('rankshape', k)
+                k += 1
+                a = (nr.random(shape) < 0.5) if dt == 'bool' else nr.integers(0, 200, size=shape).astype(dt)
+                if dt != 'bool' and ba == 1:
+                    a = (a % 2).astype(dt)
+                nd = a.ndim
+                pi = 'RGB' if (nd >= 3 and a.shape[2] == 3) else 'MONOCHROME2'
+                spell = _next_spell(ctx)
+                st, val = _encode(a, ts, ba, ba, pi, 0, pc, spell)
+                is_frame = nd in (2, 3) and all(1 <= s <= 65535 for s in a.shape[:2])
+                case = {'kind': 'rank-shape', 'ts': ts, 'dtype': dt, 'ba': ba, 'bs': ba, 'pi': pi, 'pr': 0, 'pc': pc,
+                        'shape': list(shape), 'spell': spell, 'seed_index': k - 1}
+                ctx.case(kind='rank-shape', syntax=TSNAME[ts], outcome='accepted' if st == 'ok' else 'refused', shape=str(shape))
+                sh = list(a.shape) + [0, 0, 0]
+                reqs.append(('encodeRouteRaw', {'ts': ts, 'ba': ba, 'bs': ba, 'pi': pi, 'pr': 0, 'planar': pc, 'shape0': sh[0],
+                                                'shape1': sh[1], 'shape2': sh[2], 'ndim': nd, 'kind': a.dtype.kind,
+                                                'itemsize': a.dtype.itemsize, 'dtype': str(a.dtype),
+                                                'max': int(a.max()) if a.size else 0, 'min': int(a.min()) if a.size else 0}))
+                pending.append((case, 'raw-route', st))
+                if st != 'ok':
+                    if is_frame and ts in NATIVE and not (ba == 1 and a.size % 8):
+                        ctx.fail(case, f'a frame at the edge of the Rows / Columns range was refused: {val}', site='must-accept')
+                    continue
+                if not is_frame:
+                    ctx.fail(case, 'an array that is no frame (rank other than 2 / 3, or 0 / more than 65535 rows or columns) '
+                                   f'was accepted ({len(val)} bytes)', site='rank-shape')
+                    continue
+                spp = a.shape[2] if nd == 3 else 1
+                st2, dec = _decode(val, ts, a.shape[0], a.shape[1], spp, ba, ba, pi, 0, pc, spell)
+                if st2 != 'ok' or not _same(dec, a):
+                    ctx.fail(case, dec if st2 != 'ok' else 'decode_frame(encode_frame(x)) != x', site='roundtrip')
+    ctx.exhaustive.append(f'{k} arrays of rank 0, 1, 4, 5 and with 0 / 65535 / 65536 / 70000 rows or columns')
+
+
 def _decode_routes(ctx, reqs, pending):
     """`decode_frame` dispatch (L0: accept/refuse of its own parameter checks) on a small grid"""
     from highdicom.frame import decode_frame
@@ -567,6 +639,7 @@ def run(ctx):
     _uids(ctx, reqs, pending)
     _must_accept(ctx, reqs, pending)
     _cells(ctx, reqs, pending)
+    _rank_and_shape_cells(ctx, reqs, pending)
     _decode_routes(ctx, reqs, pending)
     _frames(ctx, reqs, pending)
     answers = ctx.model(reqs)
@@ -590,6 +663,12 @@ def run(ctx):
         elif what == 'values':
             if ans.get('ok') != impl:
                 ctx.disagree('L0', case, impl[:40], ans if 'err' in ans else ans['ok'][:40], 'decoded values')
+        elif what == 'bytes-refused':
+            if 'err' not in ans:
+                ctx.disagree('L0', case, impl, ans['ok'][:40], 'pack_bits refused, the model packs')
+        elif what == 'raw-route':
+            if ('ok' in ans) != (impl in ('ok', 'codec')):
+                ctx.disagree('L0', case, impl, ans, 'accept-vs-refuse of the validation (rank / shape cells)')
 
 
 def replay(ctx, case):
